@@ -2,6 +2,7 @@ package wire
 
 import (
 	"errors"
+	"fmt"
 
 	"github.com/jackc/pgx/v5/pgtype"
 )
@@ -28,7 +29,22 @@ func (p Parameter) Scan(oid uint32) (any, error) {
 		return nil, ErrUnknownOid
 	}
 
-	return typed.Codec.DecodeValue(p.types, oid, int16(p.format), p.value)
+	return decodeValue(p.types, typed, p.format, p.value)
+}
+
+// decodeValue decodes a value that has been sent by the client. The codecs
+// have been written to decode values received from a database server and some
+// of them (arrays, ranges, composites) panic on malformed binary input instead
+// of returning an error. A client should never be able to take down the
+// server, such a panic is returned as a decode error.
+func decodeValue(tm *pgtype.Map, typed *pgtype.Type, format FormatCode, value []byte) (_ any, err error) {
+	defer func() {
+		if r := recover(); r != nil {
+			err = fmt.Errorf("unable to decode the given value as %s: %v", typed.Name, r)
+		}
+	}()
+
+	return typed.Codec.DecodeValue(tm, typed.OID, int16(format), value)
 }
 
 func (p Parameter) Format() FormatCode {
